@@ -1,6 +1,7 @@
 """Driver for spec/Validation.tla: generates a typed / schema-validated method per scenario, dispatches the abstract call,
 records what the body received and the reply; plus the spec-sanity classification of every (type, value) pair.
 usage: validation.py SCENARIOS.json TRACES.json"""
+import enum
 import json
 import logging
 import sys
@@ -25,9 +26,15 @@ class XModel(pydantic.BaseModel):
     x: int
 
 
-ANN = {'int': int, 'str': str, 'bool': bool, 'optint': Optional[int], 'intlist': List[int], 'model': XModel, 'modellist': List[XModel]}
+class Choice(enum.Enum):
+    abc = 'abc'
+    five = '5'
+
+
+ANN = {'int': int, 'str': str, 'bool': bool, 'optint': Optional[int], 'intlist': List[int], 'model': XModel, 'modellist': List[XModel],
+       'float': float, 'dictint': Dict[str, int], 'enum': Choice}
 ANN_SRC = {'int': 'int', 'str': 'str', 'bool': 'bool', 'optint': 'Optional[int]', 'intlist': 'List[int]', 'model': 'XModel',
-           'modellist': 'List[XModel]'}
+           'modellist': 'List[XModel]', 'float': 'float', 'dictint': 'Dict[str, int]', 'enum': 'Choice'}
 
 
 class Ctx:
@@ -55,6 +62,8 @@ def a_val(v):
         return 't_model' if isinstance(v, XModel) else ('t_modellist' if isinstance(v, list) and all(isinstance(x, XModel) for x in v) else 'other:model')
     if isinstance(v, str) and v == DEFAULT:
         return 'DEFAULT'
+    if isinstance(v, enum.Enum):
+        return 't_enum' if isinstance(v, Choice) else 'other:enum'
     if key(v) in REV:
         return REV[key(v)]
     if isinstance(v, XModel):
@@ -65,6 +74,10 @@ def a_val(v):
         return 't_bool'
     if isinstance(v, int):
         return 't_int'
+    if isinstance(v, float):
+        return 't_float'
+    if isinstance(v, dict):
+        return 't_dict'
     if isinstance(v, str):
         return 't_str'
     if isinstance(v, list):
@@ -137,10 +150,11 @@ def run(scn):
 
     def log(loc):
         e = {'ev': 'Exec', 'p1': a_val(loc['p1']) if 'p1' in loc else 'na', 'p2': a_val(loc['p2']) if 'p2' in loc else 'na',
+             'p3': a_val(loc['p3']) if 'p3' in loc else 'na',
              'extra': a_val(loc['ctx']) if 'ctx' in loc else (a_val(loc['dep']) if 'dep' in loc else 'na')}
         ev.append(e)
         return 'RET'
-    ns = {'DEFAULT': DEFAULT, '_log': log, 'Optional': Optional, 'List': List, 'XModel': XModel}
+    ns = {'DEFAULT': DEFAULT, '_log': log, 'Optional': Optional, 'List': List, 'Dict': Dict, 'XModel': XModel, 'Choice': Choice}
     exec('def m(%s):\n    return _log(dict(locals()))\n' % ', '.join(parts), ns)
     m = ns['m']
     if is_schema:
